@@ -29,6 +29,11 @@ ProgsShut == [c \in {"c0", "c1"} |-> IF c = "c0" THEN <<P("put", 1, 1, 1, -1), S
                                       ELSE <<P("put", 2, 1, 1, -1), P("del", 1, -1, -1, -1)>>]
 CfgShut == Cfg(4, 1, 8)
 
+\* --- shutdown racing a put that needs an eviction (the store is cleared before the weights: C03's pressure judge, C13)
+ProgsShutP == [c \in {"c0", "c1"} |-> IF c = "c0" THEN <<P("put", 1, 1, 3, -1), Shut>>
+                                       ELSE <<P("put", 2, 1, 3, -1), P("put", 3, 1, 2, -1)>>]
+CfgShutP == Cfg(4, 2, 8)
+
 \* --- reads through a one-slot buffer with the consumer running, delete in between (C02 C04 C15 C16)
 ProgsReads == [c \in {"c0", "c1"} |-> IF c = "c0" THEN <<P("put", 1, 1, 1, -1), Aw(1), Rd(1, "get"), Rd(1, "get_ref"), Rd(1, "get")>>
                                        ELSE <<Rd(1, "get"), P("del", 1, -1, -1, -1), Rd(1, "get")>>]
